@@ -382,7 +382,14 @@ Progs == [id |-> ".", failB |-> ".+1", nocompile |-> "(", collect |-> "[inputs]"
           haltB |-> "if type==\"string\" then (\"bye\\n\"|halt_error(7)) else . end",
           dup |-> ".,.", none |-> "empty", wrap |-> "[.]", var |-> "$x",
           emitfailB |-> ".,(if type==\"string\" then error(\"x\") else empty end)",
-          failnullB |-> "if type==\"string\" then error(null) else . end"]        \* an error whose VALUE is falsy is still an error (status 5)
+          failnullB |-> "if type==\"string\" then error(null) else . end",       \* an error whose VALUE is falsy is still an error (status 5)
+          \* programs whose SHAPE meets the wrapper fq puts around the user's program (try (PROGRAM) catch report | display):
+          \* a bare catch-less try, a postfix ?, a label at the top and a definition at the top.  An error the program itself
+          \* swallows is no failure: nothing on stdout for that input, status 0.
+          tryB |-> "try (if type==\"string\" then error(\"x\") else . end)",
+          optB |-> "(if type==\"string\" then error(\"x\") else . end)?",
+          labelB |-> "label $f | if type==\"string\" then break $f else . end",
+          defB |-> "def f: if type==\"string\" then error(\"x\") else . end; f"]
 ProgTags == DOMAIN Progs
 ProgOfText(txt) == IF \E p \in ProgTags : Progs[p] = txt THEN CHOOSE p \in ProgTags : Progs[p] = txt ELSE "unknown"
 ProgFileTag(name) == IF name = "id.jq" THEN "id" ELSE IF name = "fail.jq" THEN "failB" ELSE "unknown"
@@ -400,6 +407,8 @@ EvalProg(p, x, xval) ==
       [] p = "var"   -> EvRes(<<xval>>, FALSE, -1)
       [] p = "emitfailB" -> EvRes(<<x>>, x.t = "str", -1)
       [] p = "failnullB" -> IF x.t = "str" THEN EvRes(<<>>, TRUE, -1) ELSE EvRes(<<x>>, FALSE, -1)
+      [] p \in {"tryB", "optB", "labelB"} -> IF x.t = "str" THEN EvRes(<<>>, FALSE, -1) ELSE EvRes(<<x>>, FALSE, -1)
+      [] p = "defB" -> IF x.t = "str" THEN EvRes(<<>>, TRUE, -1) ELSE EvRes(<<x>>, FALSE, -1)
       [] OTHER -> EvRes(<<>>, FALSE, -1)
 
 (******************** (b) option evaluation ********************************)
@@ -627,7 +636,7 @@ EmptyRawText(cfg) == /\ cfg.mode = "raw" /\ InputsRead(cfg) /\ GoodIdx(cfg) # <<
 
 \* Independence, in the property's own words: with a program that treats every input on its own, the output is the
 \* concatenation of the outputs of the good inputs run alone, in argument order.  Solo(cfg, i) is the requirement for input i alone.
-PerInputProg(p) == p \in {"id", "failB", "dup", "none", "wrap", "var", "emitfailB", "failnullB"}
+PerInputProg(p) == p \in {"id", "failB", "dup", "none", "wrap", "var", "emitfailB", "failnullB", "tryB", "optB", "labelB", "defB"}
 NewlineTerminated(i) == i.kind # "T"
 IndepApplies(cfg) == /\ Compiles(cfg) /\ PerInputProg(cfg.prog) /\ ~cfg.nullin
                      /\ \/ cfg.mode = "each"
